@@ -255,6 +255,7 @@ type c15stream struct {
 }
 
 var errC15 = errors.New("verif: injected transient stream failure")
+var errC15budget = errors.New("verif: stream withdrawn after far more re-opens than the retry budget allows")
 
 func (s *c15stream) Read(p []byte) (int, error) {
 	if s.off >= len(s.data) {
@@ -311,12 +312,23 @@ func runC15retry(t *vf.T, c c15case) {
 		fails[f] = true
 	}
 	hits, opens, openFails := 0, 0, 0
+	exceeded := false
+	// each scripted failure position costs one re-open when transient; a persistent one at most the
+	// budget of 5 retries (plus the first open)
+	openBound := 2*len(c.Fails) + 60
 	forever := -1
 	if c.Forever {
 		forever = 1
 	}
 	rr := exec.VerifNewRetryReader(context.Background(), func(ctx context.Context, off int64) (io.ReadCloser, error) {
 		opens++
+		if opens > openBound {
+			// far more re-opens than the retry budget allows for this script: stop serving the stream,
+			// so that a reader that never gives up comes back at all (every correct reader has stopped
+			// or finished long before)
+			exceeded = true
+			return nil, errC15budget
+		}
 		if off < 0 || int(off) > len(data) {
 			return nil, fmt.Errorf("bad offset %d", off)
 		}
@@ -336,6 +348,10 @@ func runC15retry(t *vf.T, c c15case) {
 	}
 	rr.Close()
 	sig := "retryreader"
+	if exceeded {
+		t.Violate(sig+" retry-budget-not-enforced", fmt.Sprintf("the reader re-opened the stream more than %d times (failures scripted at %v, persistent=%v, retry budget 5): it does not give up; %d bytes delivered", openBound, c.Fails, c.Forever, len(got)))
+		return
+	}
 	// consecutive failures at one position exceed the budget only when Forever
 	if c.Forever {
 		if err == nil || err == io.EOF {
